@@ -37,6 +37,8 @@
 -/
 import GoblVerif.Model.Correct
 import GoblVerif.Generated.CorrectionFacts
+import GoblVerif.Generated.CorrectSrc
+import GoblVerif.Proofs.GoSemList
 
 namespace GoblVerif.Props.C16
 open GoblVerif.Correct
@@ -443,6 +445,151 @@ example : errOf (exInv.correct some plDef { type := "debit-note", reason := "r",
 example : errOf (exInv.correct some plDef { type := "credit-note", reason := "r" } "t") = some (.missingStamp "ksef-id") := by decide
 example : errOf (exInv.correct some plDef { } "t") = some .missingType := by decide
 example : errOf (({ exInv with code := "" } : Invoice Nat).correct some plDef { type := "credit-note" } "t") = some .noCode := by decide
+
+/-! ## the tie to the source: tax/corrections.go and bill/invoice_correct.go translated by go2lean
+
+`Generated/CorrectSrc.lean` holds `(*tax.CorrectionDefinition).Merge` and
+`(*bill.Invoice).validatePrecedingData` translated from the Go text on every
+run.  They are proved equal to `CorrectionDef.merge` / `mergeOpt` and to the
+refusal logic of `Invoice.correctCore`.  `Invoice.Correct` itself,
+`prepareCorrectionOptions`, `correctionDef` and `Envelope.Correct` /
+`Replicate` are outside the translator's subset (closures, interface dispatch,
+registries): they stay on the pins of `Expect` below and on the differential
+run. -/
+namespace Src
+open GoblVerif.Generated GoblVerif.Generated.CorrectSrc GoblVerif.GoSem
+
+theorem all_translated : Tax.untranslated = [] ∧ Bill.untranslated = [] := by decide
+
+theorem translated_as_listed :
+    Tax.translated = ["CorrectionDefinition.Merge"] ∧ Bill.translated = ["Invoice.validatePrecedingData"] := by decide
+
+theorem struct_CorrectionDefinition_as_read :
+    Tax.struct_CorrectionDefinition = [("Schema", "string"), ("Types", "[]cbc.Key"), ("Extensions", "[]cbc.Key"),
+      ("ReasonRequired", "bool"), ("Stamps", "[]cbc.Key"), ("CopyTax", "bool")] ∧
+    Tax.structOmitted_CorrectionDefinition = [] := by decide
+
+/-- what the translation assumes beyond its general reading of Go.  `Merge`
+    WRITES `cd.CopyTax` through its receiver before it builds the new
+    definition: the translation keeps the write local (the caller's definition
+    is not modelled — that the registered definitions are not changed by it is
+    checked by C19's after-use comparison, finding C16-7) -/
+theorem assumptions_as_reviewed :
+    Tax.ptrWrites = [("CorrectionDefinition.Merge", "cd.CopyTax")] ∧ Tax.primitives = [] ∧
+    Tax.inOutParams = [] ∧ Tax.inOutCalls = [] ∧ Tax.outPrimCalls = [] ∧
+    Bill.inOutParams = [("Invoice.validatePrecedingData", "pre")] ∧ Bill.ptrWrites = [] ∧
+    Bill.inOutCalls = [] ∧ Bill.outPrimCalls = [] ∧
+    Bill.primitives = [("cbc.Key.In", "decide ({0} ∈ {1})"), ("cbc.Key.String", "{0}"),
+      ("errors.New", "(some {0:lit} : Option String)"), ("fmt.Errorf", "(some {0:lit} : Option String)")] := by decide
+
+/-- the model's view of a Go correction definition (the schema is the invoice's) -/
+def toDef (c : Tax.CorrectionDefinition) : CorrectionDef :=
+  { types := c.Types, extensions := c.Extensions, reasonRequired := c.ReasonRequired, stamps := c.Stamps,
+    copyTax := c.CopyTax }
+
+/-- **`(*CorrectionDefinition).Merge`, regenerated, is `CorrectionDef.merge`**
+    for two definitions of the same schema: lists appended in order,
+    `ReasonRequired` and `CopyTax` joined with OR, the schema kept -/
+theorem src_Merge (cd other : Tax.CorrectionDefinition) (h : cd.Schema = other.Schema) :
+    ∃ r, Tax.CorrectionDefinition_Merge (some cd) (some other) = some r ∧ r.Schema = cd.Schema ∧
+      toDef r = (toDef cd).merge (toDef other) := by
+  unfold Tax.CorrectionDefinition_Merge
+  cases hc : other.CopyTax <;>
+    simp [Id.run, id_pure, h, hc, toDef, CorrectionDef.merge]
+
+example : ∃ cd other : Tax.CorrectionDefinition, cd.Schema = other.Schema ∧ cd ≠ other :=
+  ⟨⟨"bill/invoice", ["credit-note"], [], false, [], false⟩, ⟨"bill/invoice", ["debit-note"], [], true, ["p"], true⟩,
+    rfl, by decide⟩
+
+/-- … a nil operand gives the other one (`mergeOpt` of the model) -/
+theorem src_Merge_nil (cd : Option Tax.CorrectionDefinition) (c : Tax.CorrectionDefinition) :
+    Tax.CorrectionDefinition_Merge none cd = cd ∧ Tax.CorrectionDefinition_Merge (some c) none = some c := by
+  unfold Tax.CorrectionDefinition_Merge
+  simp [Id.run, id_pure]
+
+/-- … and a definition for another schema is ignored -/
+theorem src_Merge_otherSchema (cd other : Tax.CorrectionDefinition) (h : cd.Schema ≠ other.Schema) :
+    Tax.CorrectionDefinition_Merge (some cd) (some other) = some cd := by
+  unfold Tax.CorrectionDefinition_Merge
+  simp [Id.run, id_pure, h]
+
+/-- **`mergeOpt`, the step of `correctionDef`, read off the regenerated code** -/
+theorem src_mergeOpt (cd : Tax.CorrectionDefinition) (other : Option Tax.CorrectionDefinition)
+    (h : ∀ o, other = some o → o.Schema = cd.Schema) :
+    (Tax.CorrectionDefinition_Merge (some cd) other).map toDef = some ((toDef cd).mergeOpt (other.map toDef)) := by
+  cases other with
+  | none => simp [(src_Merge_nil none cd).2, CorrectionDef.mergeOpt]
+  | some o =>
+    obtain ⟨r, hr, _, hd⟩ := src_Merge cd o (h o rfl).symm
+    simp [hr, hd, CorrectionDef.mergeOpt]
+
+/-- the merged `ReasonRequired` of the regenerated code is an OR (C16-2) -/
+theorem src_Merge_reason_or (cd other r : Tax.CorrectionDefinition) (h : cd.Schema = other.Schema)
+    (hr : Tax.CorrectionDefinition_Merge (some cd) (some other) = some r) :
+    r.ReasonRequired = (cd.ReasonRequired || other.ReasonRequired) := by
+  obtain ⟨r', hr', _, hd⟩ := src_Merge cd other h
+  rw [hr] at hr'
+  cases hr'
+  have := congrArg CorrectionDef.reasonRequired hd
+  simpa [toDef, CorrectionDef.merge] using this
+
+/-- the refusal of `validatePrecedingData` as the model's `Err` reads
+    (`fmt.Errorf` formats; the arguments are dropped by the primitive) -/
+def refusalText : Err → String
+  | .missingStamp _ => "missing stamp: %v"
+  | .typeNotAllowed => "invalid correction type: %v"
+  | .reasonRequired => "missing corrective reason"
+  | _ => ""
+
+/-- without a definition nothing is checked and nothing is copied -/
+theorem src_validatePrecedingData_nil (inv : Bill.Invoice) (o : Bill.CorrectionOptions) (pre : Bill.DocumentRef) :
+    Bill.Invoice_validatePrecedingData inv o none pre = (none, pre) := by
+  unfold Bill.Invoice_validatePrecedingData
+  simp [Id.run, id_pure]
+
+/- FULL STATEMENT (not proved): for every definition `cd` and options whose stamp entries are non-nil,
+     (validatePrecedingData inv o (some cd) pre).1 =
+        match collectStamps (o.Stamps as model stamps) cd.Stamps with
+        | .error e => some (refusalText e)
+        | .ok _ => (type check, then reason check, as below)
+   and on `.ok stamps` the returned `pre` is `pre` with `stamps` appended.
+   Proved below: the case of a definition that requires no stamps (`cd.Stamps = []`: every regime
+   definition but pl, pt and the verifactu / sdi addons), where the stamp loop is empty; the loop over
+   required stamps (first match per provider, first missing one reported) stays on the model's
+   `collectStamps`, the pinned refusal order and the differential run. -/
+/-- **the type and reason refusals of `validatePrecedingData`, regenerated, are
+    those of `Invoice.correctCore`**: allowed types checked only when the
+    definition lists some, the reason only when required, in this order; `pre`
+    is returned untouched -/
+theorem src_validatePrecedingData_noStamps_partial (inv : Bill.Invoice) (o : Bill.CorrectionOptions)
+    (cd : Tax.CorrectionDefinition) (pre : Bill.DocumentRef) (hs : cd.Stamps = []) :
+    Bill.Invoice_validatePrecedingData inv o (some cd) pre =
+      (if cd.Types ≠ [] ∧ o.Type_ ∉ cd.Types then some (refusalText .typeNotAllowed)
+       else if cd.ReasonRequired = true ∧ pre.Reason = "" then some (refusalText .reasonRequired)
+       else none, pre) := by
+  unfold Bill.Invoice_validatePrecedingData
+  simp only [forIn_list_id, pure_bind]
+  simp only [Id.run, id_pure, Option.get!_some, hs, forList, refusalText]
+  have hl : ((cd.Types.length : Int) > 0) ↔ cd.Types ≠ [] := by
+    cases cd.Types <;> simp <;> omega
+  by_cases h1 : cd.Types ≠ [] ∧ o.Type_ ∉ cd.Types
+  · have hp : 0 < cd.Types.length := List.length_pos_iff.mpr h1.1
+    simp [h1, hp]
+  · have h' : 0 < cd.Types.length → o.Type_ ∈ cd.Types := by
+      intro hp
+      apply Classical.byContradiction
+      intro hc
+      exact h1 ⟨List.length_pos_iff.mp hp, hc⟩
+    by_cases h2 : cd.ReasonRequired = true ∧ pre.Reason = ""
+    · simp [h1, h2]
+      intro hp; exact decide_eq_true (h' hp)
+    · simp [h1, h2]
+      intro hp; exact decide_eq_true (h' hp)
+
+example : ∃ cd : Tax.CorrectionDefinition, cd.Stamps = [] ∧ cd.Types ≠ [] ∧ cd.ReasonRequired = true :=
+  ⟨⟨"bill/invoice", ["credit-note"], [], true, [], false⟩, rfl, by decide, rfl⟩
+
+end Src
 
 /-! ## expectations over facts regenerated from /repo -/
 namespace Expect
